@@ -127,7 +127,7 @@ Definition get_slice_number (results : list str) : outcome Z :=
       match parse_int64 v with Some z => Ok z | None => Err end)
   else Err.
 
-(* a start further left than the array is long is clamped to 0 (fix cbdb35c) *)
+(* a start further left than the array is long is clamped to 0 (fix 98d1fab) *)
 Definition slice_rel_first (len first : Z) : Z :=
   if (first <? 0)%Z then Z.max 0 (len + first)%Z else first.
 
@@ -160,7 +160,7 @@ Definition slice_array_exec {A} (content : list A) (first second : Z) : outcome 
   let rs := slice_rel_second len second in
   slice_loop (Z.to_nat (Z.min (rs - rf) (len + 1))) rf content.
 
-(* sliceArrayOperator on a node: slicing a map is an error (fix ed8fc74) *)
+(* sliceArrayOperator on a node: slicing a map is an error (fix 500bb97) *)
 Definition slice_node {A} (is_map : bool) (content : list A) (first second : Z) : outcome (list A) :=
   if is_map then Err else slice_array content first second.
 
@@ -173,7 +173,7 @@ Definition pad_count (len index : Z) : nat := Z.to_nat (index + 1 - len).
 
 Definition pad_limit : Z := 1000000%Z.
 
-(* an index pad_limit or more places beyond the end is an error (fix abd2cdf) *)
+(* an index pad_limit or more places beyond the end is an error (fix 4925660) *)
 Definition traverse_index {A} (null : A) (content : list A) (index : Z) : outcome (A * list A) :=
   if (index - Z.of_nat (length content) >=? pad_limit)%Z then Err else
   let padded := content ++ repeat null (pad_count (Z.of_nat (length content)) index) in
@@ -224,7 +224,7 @@ Fixpoint rotate_cols {A} (cands : list (list A)) (n : nat) (i : Z) : outcome (li
         obind (rotate_cols cands n' (i + 1)%Z) (fun r => Ok (col :: r)))
   end.
 
-(* since fix 8c76b15 an entry with fewer children than the first one is an error *)
+(* since fix c783875 an entry with fewer children than the first one is an error *)
 Definition rotate {A} (cands : list (list A)) : outcome (list (list A)) :=
   match cands with
   | [] => Ok []                      (* Len()==0 is tested before Front() *)
@@ -252,7 +252,7 @@ Definition repeat_bytes_limit : Z := 100000000%Z.
 Definition repeat_string (mem : Z) (slen count : Z) : outcome Z :=
   if (count <? 0)%Z then Err
   else if (count >? repeat_limit)%Z then Err
-  else if (0 <? count)%Z && (slen >? repeat_bytes_limit / count)%Z then Err   (* fix e5c76bb *)
+  else if (0 <? count)%Z && (slen >? repeat_bytes_limit / count)%Z then Err   (* fix 3108f38 *)
   else if (slen * count >? mem)%Z then Panic RepeatAlloc
   else Ok (slen * count)%Z.
 
